@@ -300,6 +300,47 @@ def replay_fdata_body(p):
     return _res(bad, {'dtypes': [str(a.dtype), str(b.dtype)], 'shape_b': list(b.shape)}, argmap)
 
 
+def replay_fdata_cast(p):
+    """Channel B with a cast dtype carrying a byte order (np.dtype('>f4') ...): rows read back equal the cast values."""
+    _quiet()
+    kind, dtB, castB, ordB, ordC, wB = p['args'][:6]
+    wB = min(wB, 300)
+    a, b, x = make_cols(5, 2, dtB, '<', '>' if ordB else '<', wB)
+    from dliswriter import DLISFile
+    df = DLISFile()
+    lf = df.add_logical_file()
+    lf.add_origin('O', file_set_number=1, creation_time='2020/01/01 00:00:00')
+    src, mapping, cleanup = make_real_source(kind, a, b, x)
+    cdt = np.dtype(DT_NAMES[castB]).newbyteorder('>' if ordC else '<')
+    argmap = {'kind': kind, 'source dtype': str(b.dtype), 'cast_dtype': str(cdt), 'width': wB}
+    path = fresh_tmp()
+    bad = ''
+    try:
+        ca = lf.add_channel('A', dataset_name=mapping['A'])
+        cb = lf.add_channel('B', dataset_name=mapping['B'], cast_dtype=cdt)
+        lf.add_frame('FR', channels=(ca, cb))
+        import warnings
+        with warnings.catch_warnings():
+            warnings.simplefilter('ignore')
+            df.write(path, data=src, output_chunk_size=65536)
+            with open(path, 'rb') as f:
+                data = f.read()
+            bad = check_rows(data, a, b.astype(DT_NAMES[castB]), 0, 5)
+    except strict.StrictError as e:
+        bad = f'strict reader: {e}'
+    except (ValueError, TypeError, RuntimeError) as e:
+        bad = ''                            # a cast dtype the library refuses is not this obligation's subject
+        argmap['refused'] = str(e)[:80]
+    finally:
+        for p_ in (path, cleanup):
+            if p_:
+                try:
+                    os.remove(p_)
+                except OSError:
+                    pass
+    return _res(bad, {'dtype': str(b.dtype), 'cast': str(cdt), 'width': wB}, argmap)
+
+
 def replay_descriptors(p):
     _quiet()
     kind, dt, wB, cast, dim_given, dim, lim_given, lim = p['args'][:8]
